@@ -8,6 +8,7 @@ use crate::common::Ctx;
 use crate::fam::{Fam, KeyF, ValF};
 use crate::panicsafe::layouts;
 use micromap::{Map, Set};
+use support::elems::{z_set_eq, Z};
 use support::ledger;
 use support::rng::{Fp, Rng};
 
@@ -147,6 +148,12 @@ impl<'a> Eqc<'a> {
                 if ab != want || ba != want {
                     v(if ab != ba { "asymmetric" } else { "wrong-answer" }, format!("a = Map<_,_,{}> {:?}, b = Map<_,_,{}> {:?} (as (class, value) in slot order): a == b is {}, b == a is {}, extensionally {} [{}]", N, st_a, M, st_b, ab, ba, want, kind(st_a, st_b)));
                 }
+                // `!=` is the same comparison read the other way round
+                #[allow(clippy::nonminimal_bool)]
+                let (nab, nba) = (a != bs[ib], bs[ib] != a);
+                if nab == want || nba == want {
+                    v("ne-is-not-the-negation", format!("a = Map<_,_,{}> {:?}, b = Map<_,_,{}> {:?}: a != b is {}, b != a is {}, but the maps are extensionally {} [{}]", N, st_a, M, st_b, nab, nba, if want { "equal" } else { "unequal" }, kind(st_a, st_b)));
+                }
                 let k = kind(st_a, st_b);
                 self.cx.rep.hit(k);
                 if !(st_a.is_empty() && st_b.is_empty()) {
@@ -183,6 +190,48 @@ impl<'a> Eqc<'a> {
         self.cx.rep.hit(&format!("map-space:N={},M={}", N, M));
     }
 
+    /// zero-sized key and value (and zero-sized set elements): all keys equal, or all keys different
+    pub fn zst_pairs<const N: usize, const M: usize>(&mut self) {
+        ledger::set_ctx(self.group, 0, "zst==");
+        for all_equal in [true, false] {
+            z_set_eq(all_equal);
+            for la in 0..=N {
+                for lb in 0..=M {
+                    if all_equal && (la > 1 || lb > 1) {
+                        continue;
+                    }
+                    self.cx.rep.evaluations += 1;
+                    let mut a: Map<Z, (), N> = Map::new();
+                    let mut b: Map<Z, (), M> = Map::new();
+                    let mut sa: Set<Z, N> = Set::new();
+                    let mut sb: Set<Z, M> = Set::new();
+                    for _ in 0..la {
+                        a.insert(Z::new(), ());
+                        sa.insert(Z::new());
+                    }
+                    for _ in 0..lb {
+                        b.insert(Z::new(), ());
+                        sb.insert(Z::new());
+                    }
+                    // all keys equal: equal iff same length; all keys different: equal iff both empty
+                    let want = if all_equal { la == lb } else { la == 0 && lb == 0 };
+                    let got = [a == b, b == a, !(a != b), !(b != a), sa == sb, sb == sa, !(sa != sb)];
+                    if got.iter().any(|g| *g != want) {
+                        v("zero-sized", format!("zero-sized keys (all equal = {}): Map<Z,(),{}> with {} entries vs Map<Z,(),{}> with {}: [a==b, b==a, !(a!=b), !(b!=a), set a==b, set b==a, !(set a!=b)] = {:?}, extensionally {}", all_equal, N, la, M, lb, got, want));
+                    }
+                    if a.len() != la || b.len() != lb {
+                        v("operand-changed", "a zero-sized operand changed its length".into());
+                    }
+                    self.cx.rep.hit(if want { "zst:equal" } else { "zst:unequal" });
+                }
+            }
+        }
+        z_set_eq(true);
+        if ledger::viol_total() > 0 {
+            self.cx.rep.absorb_violations("C14", &|| vec![format!("zero-sized pairs N={} M={}", N, M)]);
+        }
+    }
+
     pub fn set_pairs<F: Fam, const N: usize, const M: usize>(&mut self, u: u32) {
         let (si, sn) = self.cx.shard;
         let sa = valued_layouts(u, N, 1);
@@ -213,6 +262,10 @@ impl<'a> Eqc<'a> {
                 self.cx.rep.evaluations += 1;
                 if ab != want || ba != want {
                     v(if ab != ba { "asymmetric" } else { "wrong-answer" }, format!("a = Set<_,{}> {:?}, b = Set<_,{}> {:?}: a == b is {}, b == a is {}, extensionally {}", N, st_a, M, st_b, ab, ba, want));
+                }
+                let (nab, nba) = (a != bs[ib], bs[ib] != a);
+                if nab == want || nba == want {
+                    v("ne-is-not-the-negation", format!("a = Set<_,{}> {:?}, b = Set<_,{}> {:?}: a != b is {}, b != a is {}, but the sets are extensionally {}", N, st_a, M, st_b, nab, nba, if want { "equal" } else { "unequal" }));
                 }
                 self.cx.rep.hit(&format!("set:{}", kind(st_a, st_b)));
                 if !(st_a.is_empty() && st_b.is_empty()) {
@@ -307,6 +360,9 @@ impl<'a> Eqc<'a> {
             });
             let want = model_eq(&ma, &mb);
             let (ab, ba) = (a == b, b == a);
+            if (a != b) == want || (b != a) == want {
+                v("ne-is-not-the-negation", format!("maps reached by two histories: a = {:?}, b = {:?}: `!=` does not negate the extensional answer {}", ma, mb, want));
+            }
             self.cx.rep.evaluations += 1;
             self.cx.rep.hit(if want { "histories:equal" } else { "histories:unequal" });
             if ab != want || ba != want {
